@@ -186,7 +186,10 @@ class Frame:
         :
             Propagated frame.
         """
-        delta = distance.to(unit=self.distance.unit, copy=False) - self.distance
+        delta = (
+            distance.to(unit=self.distance.unit, dtype='float64', copy=False)
+            - self.distance
+        )
         subframes = [subframe.propagate_by(delta) for subframe in self.subframes]
         return Frame(distance=distance, subframes=subframes)
 
